@@ -74,6 +74,7 @@ def real_pipeline(rng, oc):
     today = dt.date(*TODAY)
     with Z.tmpdir("c12_") as d:
         files = {"odd.zo": ODD_PAGE, "prio.zo": PRIO_PAGE, "dated.zo": DATED_PAGE,
+                 "many.zo": "# many new notes of one day\n\n" + "".join("%s entry number %d\n" % ("-o~x<>"[k % 6], k) for k in range(46)) + "\n",
                  "gen.zo": pagegen.render(pagegen.gen_page(rng, max_sections=2)),
                  "sub/more.zo": pagegen.render(pagegen.gen_page(rng, max_sections=1))}
         write_tree(d, files)
@@ -93,6 +94,15 @@ def real_pipeline(rng, oc):
                         return True
                     for n in r["notes"]:
                         orig[n["zid"]] = n
+            # every indexed note must be found again, under its ZID, in what the files compile to (an emitted ZID that the
+            # grammar does not read as a ZID shows here)
+            from harness import world as W
+            indexed = {n["zid"] for n in W.dump_index(d)}
+            if indexed != set(orig):
+                oc.spec_fail.append(({"files": files}, {"zids_only_in_index": sorted(z for z in indexed - set(orig) if z)[:5],
+                                                         "zids_only_in_files": sorted(z for z in set(orig) - indexed if z)[:5]},
+                                     "the notes the index holds are the notes the (written-back) files compile to, ZID for ZID", None))
+                return False
             jobs = []
             for w, kinds in KIND_WHERES.items():
                 for o in rng.sample(ORDERS, 3):
